@@ -72,7 +72,7 @@ Definition all_fixed : fixes :=
 (* the switches as /repo stands now *)
 Definition current_code : fixes :=
   {| fx_cti_index := true; fx_cti_block := true; fx_cti_dup := true; fx_senders := true; fx_sign_meta := true; fx_sign_len0 := true;
-     fx_cur_nil := true; fx_cur3_nil := false; fx_import_rec := true; fx_taskchan := true; fx_select_neg := true |}.
+     fx_cur_nil := true; fx_cur3_nil := true; fx_import_rec := true; fx_taskchan := true; fx_select_neg := true |}.
 Definition as_found : fixes :=
   {| fx_cti_index := false; fx_cti_block := false; fx_cti_dup := false; fx_senders := false; fx_sign_meta := false; fx_sign_len0 := false;
      fx_cur_nil := false; fx_cur3_nil := false; fx_import_rec := false; fx_taskchan := false; fx_select_neg := false |}.
